@@ -26,7 +26,7 @@ structure DState where
   plans : List ((Nat × Nat) × PlanSpec) := []
   defMd5 : Bool := true
   ctab : List (String × Option Bytes) := []
-  ztab : List (Bytes × Bytes) := []
+  ztab : List (Bytes × Bytes × Bool) := []
   dead : Bool := false
 
 /-! ### parameter instances -/
@@ -65,20 +65,23 @@ def isPrefix : Bytes → Bytes → Bool
   | _ :: _, [] => false
   | a :: r, b :: s => a == b && isPrefix r s
 
-/-- ideal decompressor: state after a call history = (consumed input, number of output bytes produced) -/
-def idealStep (ztab : List (Bytes × Bytes)) (stt : Bytes × Nat) (c : DzCall) : (Bytes × Nat) × DzOut :=
+/-- ideal decompressor: state after a call history = (consumed input, number of output bytes produced).  A table entry
+    `(compressed, content, bad)` with `bad = true` is a stream whose trailer check (gzip CRC32 / zlib Adler-32) fails: all of
+    `content` is handed out, the read after the last content byte answers `Err`. -/
+def idealStep (ztab : List (Bytes × Bytes × Bool)) (stt : Bytes × Nat) (c : DzCall) : (Bytes × Nat) × DzOut :=
   let (consumed, produced) := stt
   let consumed' := consumed ++ c.avail
   match ztab.find? (·.1 == consumed') with
-  | some (_, content) =>
+  | some (_, content, bad) =>
     let out := (content.drop produced).take c.buflen
-    ((consumed', produced + out.length), { take := c.avail.length, res := .data out })
+    if bad ∧ out.isEmpty ∧ c.buflen != 0 then ((consumed', produced), { take := c.avail.length, res := .err })
+    else ((consumed', produced + out.length), { take := c.avail.length, res := .data out })
   | none =>
     if ztab.any (fun e => isPrefix consumed' e.1) ∧ !c.fin then
       ((consumed', produced), { take := c.avail.length, res := .wouldBlock })
     else ((consumed', produced), { take := c.avail.length, res := .err })
 
-def idealDz (ztab : List (Bytes × Bytes)) (cenc : Cenc) (hist : List DzCall) (c : DzCall) : DzOut :=
+def idealDz (ztab : List (Bytes × Bytes × Bool)) (cenc : Cenc) (hist : List DzCall) (c : DzCall) : DzOut :=
   -- the first call of a history is the constructor: only the gzip decoder reads (its header) at construction
   let isCtor (h : DzCall) : Bool := h.buflen == 0
   let stepC (s : Bytes × Nat) (h : DzCall) : (Bytes × Nat) × DzOut :=
@@ -285,7 +288,11 @@ def step (d : DState) (args : List String) : DState × String :=
     | none => (d, "bad-op")
   | ["zmap", t, c] =>
     match unhex t, unhex c with
-    | some t, some c => ({ d with ztab := (t, c) :: d.ztab }, "ok")
+    | some t, some c => ({ d with ztab := (t, c, false) :: d.ztab }, "ok")
+    | _, _ => (d, "bad-op")
+  | ["zmap", t, c, "bad"] =>
+    match unhex t, unhex c with
+    | some t, some c => ({ d with ztab := (t, c, true) :: d.ztab }, "ok")
     | _, _ => (d, "bad-op")
   | "pkt" :: rest =>
     if d.dead then (d, "dead") else
